@@ -319,6 +319,9 @@ def check(pid, tier, seed, spec, known, fixed, work, only, jobs, t_start):
         for i in g['instances']:
             i.setdefault('cdefs', {})
             for k in known: i['cdefs']['KF_' + re.sub(r'\W', '_', k)] = 1
+    for g in groups:
+        g['cxxdefs'] = dict(g.get('cxxdefs', {}))
+        for k in known: g['cxxdefs']['KF_' + re.sub(r'\W', '_', k)] = 1
     if not groups: raise SystemExit('no instances selected')
     built = []; build_errors = []
     for g in groups:
